@@ -151,15 +151,16 @@ def gen(t, tier):
         c = [t.choice(n), t.choice(n), z]
         if c not in coords:
             coords.append(c)
-    backend = t.weighted([('file', 3), ('sqlite', 2), ('file-link', 2)])
+    backend = t.weighted([('file', 6), ('sqlite', 4), ('file-link', 4), ('file-hardlink', 1)])
+    anylink = backend in ('file-link', 'file-hardlink')
     sc = {'service': t.pick(SERVICES), 'backend': backend,
           'meta_size': t.pick([[1, 1], [1, 1], [2, 2]]), 'refresh': t.pick([None, 30, 30, 3600]),
           'fill': t.pick(['#ff0000', 'transparent']), 'coords': coords, 'ops': [], 'frac': t.pick([0.0, 0.4]),
-          'ocean': backend == 'file-link' or bool(t.chance(0.15)),
+          'ocean': anylink or bool(t.chance(0.15)),
           # a cache merged from two sources; in upstream-failure periods only the overlay source fails
-          'two_sources': backend != 'file-link' and bool(t.chance(0.3))}
+          'two_sources': not anylink and bool(t.chance(0.3))}
     # a second on_error mapping with the same colour whose fill image is to be cached (404), next to the uncached 500
-    sc['err404'] = not sc['two_sources'] and backend != 'file-link' and bool(t.chance(0.3))
+    sc['err404'] = not sc['two_sources'] and not anylink and bool(t.chance(0.3))
     # a cache on top of another cache with a different tile size (same SRS and resolutions): the outer cache cuts its (meta)
     # tiles out of the merged tiles of the inner one; tiles are only ever created, never rewritten, in these cases
     sc['cascade'] = backend == 'file' and not sc['two_sources'] and not sc['err404'] and bool(t.chance(0.15))
@@ -173,7 +174,7 @@ def gen(t, tier):
         sc['ocean'] = False
         sc['meta_size'] = t.pick([[1, 1], [2, 2]])
         sc['meta_buffer'] = t.pick([0, 2, 3])
-    if backend == 'file-link':
+    if anylink:
         # make sure at least two requested tiles are constant-colour ones (they share the single-colour files)
         for x in range(n):
             for y in range(n):
@@ -206,10 +207,14 @@ def gen(t, tier):
                       ['cond', x, 'inm', 'previous']]
     for _ in range(nops):
         linked = backend == 'file-link'
-        k = t.weighted([('get', 5), ('cond', 8), ('adv', 3), ('rewrite', (6 if linked else 2) if sc['refresh'] else 0),
+        # hard links: all tiles of one colour are one inode with one time stamp - a tile that changes its colour takes over the
+        # time of the other colour's file (documented limitation, DESIGN.md section 14); the colours stay as they are here, so a
+        # constant-colour tile is only ever rewritten with the bytes it already had
+        hard = backend == 'file-hardlink'
+        k = t.weighted([('get', 5), ('cond', 8), ('adv', 3), ('rewrite', (6 if linked or hard else 2) if sc['refresh'] else 0),
                         ('up500', 1 if linked else 2), ('up404', 2 if sc.get('err404') else 0), ('cond_refresh', 2 if sc['refresh'] else 0),
-                        ('ocean', 5 if linked else (2 if sc['ocean'] else 0)),
-                        ('purge', 0 if sc.get('cascade') else (4 if linked else 1)),
+                        ('ocean', 0 if hard else (5 if linked else (2 if sc['ocean'] else 0))),
+                        ('purge', 0 if sc.get('cascade') else (4 if linked or hard else 1)),
                         ('diskfail', 1 if backend == 'file' and not sc.get('cascade') else 0)])
         u = t.choice(len(coords))
         if k == 'get':
@@ -322,7 +327,7 @@ def _run(sc, tape):
 
     w.extra_patches.append((times, 'datetime', C.datetime_module(clock)))
     realdir = None
-    if sc['backend'] in ('file', 'file-link'):
+    if sc['backend'] in ('file', 'file-link', 'file-hardlink'):
         cache_conf = {'type': 'file', 'directory_layout': 'tc'}
     else:
         _seq[0] += 1
@@ -331,7 +336,8 @@ def _run(sc, tape):
         cache_conf = {'type': 'sqlite', 'directory': realdir}
     conf = F.base_conf(cache_conf, meta_size=sc['meta_size'],
                        refresh_before={'seconds': sc['refresh']} if sc['refresh'] else None,
-                       on_error_color=sc['fill'], link=sc['backend'] == 'file-link')
+                       on_error_color=sc['fill'],
+                       link={'file-link': True, 'file-hardlink': 'hardlink'}.get(sc['backend'], False))
     if sc.get('two_sources'):
         conf['sources']['src2'] = {'type': 'wms', 'req': {'url': 'http://upstream.sim/service?', 'layers': 'b'},
                                    'supported_srs': ['EPSG:3857'],
@@ -404,16 +410,19 @@ def _run(sc, tape):
     def stored_kind(u):
         """what the history so far has put into the cache for this tile: every upstream answer covering it (alone or as part
         of a meta tile) replaces it - an image, or the cacheable fill image of a 404; a 500 stores nothing; a purge removes it"""
-        timeline = [(i, 'tile' if e['ok'] else ('fill404' if e.get('code') == 404 else None))
+        timeline = [(i, 'tile' if e['ok'] else ('fill404' if e.get('code') == 404 else None), bool(e.get('store_unknown')))
                     for i, e in enumerate(http.log) if e.get('bbox') and e['ok'] is not None and U.covers(e['bbox'], coords[u])]
-        timeline += [(pos - 0.5, 'purge') for pos, u2 in purges if u2 == u]
-        kind = None
-        for _, what_ in sorted(timeline, key=lambda x: x[0]):
+        timeline += [(pos - 0.5, 'purge', False) for pos, u2 in purges if u2 == u]
+        kinds = set([None])
+        for _, what_, unknown in sorted(timeline, key=lambda x: x[0]):
             if what_ == 'purge':
-                kind = None
+                kinds = set([None])
+            elif what_ is not None and unknown:
+                # fetched while the disk was full: this tile of the (meta) tile may or may not have been written
+                kinds = kinds | set([what_])
             elif what_ is not None:
-                kind = what_
-        return kind
+                kinds = set([what_])
+        return kinds
 
     def get(u, headers=None):
         n0 = len(http.log)
@@ -433,7 +442,7 @@ def _run(sc, tape):
                 # the configuration says: cache this one
                 probes['cacheable_404_fills'] = probes.get('cacheable_404_fills', 0) + 1
                 return kind, val
-            if not failed and stored_kind(u) == 'fill404':
+            if not failed and 'fill404' in stored_kind(u):
                 probes['cached_404_fill_served'] = probes.get('cached_404_fill_served', 0) + 1
                 return kind, val
         if kind == 'fill':
@@ -494,8 +503,19 @@ def _run(sc, tape):
                               'ETag %r: a client revalidating its old copy is answered 304' % (what, l['etag']))
                 # the rewrite happened at least two seconds after the previous write: its Last-Modified has to move on
                 covering = [e for e in http.log if e['ok'] and e.get('bbox') and U.covers(e['bbox'], coords[u])]
-                if 0 < l['epoch'] <= len(covering) and ep <= len(covering) and not sc.get('cascade'):
-                    t_prev, t_cur = covering[l['epoch'] - 1]['t1'], covering[ep - 1]['t1']
+                # which fetch wrote a copy is read from its pixels (the fetch generation) where possible: a successful fetch need
+                # not have been stored (the other source of a merged tile failed, the disk was full)
+                if kind == 'tile' and isinstance(l.get('val'), int) and isinstance(val, int):
+                    e_prev = [e for e in covering if e['gen'] & 255 == l['val']]
+                    e_cur = [e for e in covering if e['gen'] & 255 == val]
+                    times = (e_prev[0]['t1'], e_cur[0]['t1']) if len(e_prev) == 1 and len(e_cur) == 1 else None
+                elif 0 < l['epoch'] <= len(covering) and ep <= len(covering) and not sc.get('two_sources') and \
+                        not any(o[0] == 'diskfail' for o in sc['ops']):
+                    times = (covering[l['epoch'] - 1]['t1'], covering[ep - 1]['t1'])
+                else:
+                    times = None
+                if times is not None and not sc.get('cascade'):
+                    t_prev, t_cur = times
                     if l['body'] != body and t_cur - t_prev >= 2.0 and l['lm'] is not None and l['lm'] == hd.get('last-modified'):
                         raise Bad('last-modified-unchanged-after-rewrite', '%s: the tile was rewritten %.1f s after the previous '
                                   'write with different content but still reports Last-Modified %r: If-Modified-Since with the date '
@@ -557,12 +577,18 @@ def _run(sc, tape):
                         fired = disk['fired']
                         disk.update({'armed': False, 'fired': False})
                     if fired:
+                        for e_ in calls:
+                            e_['store_unknown'] = True
                         probes['disk_full_while_storing'] = probes.get('disk_full_while_storing', 0) + 1
                     if fired and st == 200 and hd.get('etag') and not w.fs.exists(path_):
                         disk['armed'] = True
+                        t_second = len(http.log)
                         try:
                             st2, hd2, body2, calls2 = get(u, {'If-None-Match': hd['etag']})
                         finally:
+                            if disk['fired']:
+                                for e_ in http.log[t_second:]:
+                                    e_['store_unknown'] = True
                             disk.update({'armed': False, 'fired': False})
                         if st2 == 304:
                             raise Bad('304-for-unstored-tile', '%s: storing the tile failed (disk full), the response was 200 with ETag %r, '
@@ -639,6 +665,9 @@ def _run(sc, tape):
                         elif op[3] == 'previous':
                             # the date of the client's older copy; the tile has been rewritten since
                             if u not in prev or prev[u]['lm'] is None:
+                                continue
+                            if sc['backend'] == 'file-hardlink' and prev[u]['etag'] == cur['etag']:
+                                # hard-linked constant-colour tile rewritten with the same bytes: same inode, same validators
                                 continue
                             plm = parse_httpdate(prev[u]['lm'])
                             headers['If-Modified-Since'] = prev[u]['lm'] if plm is None else format_httpdate(plm)
